@@ -489,7 +489,7 @@ func init() {
 		ID:           "C16",
 		Level:        "exploration",
 		Technique:    "runtime monitoring: differential oracle (reference tree walker using the independent matcher) plus model-free existence/order/duplicate checks on pattern.Glob executed in real scratch directory trees",
-		Rule:         "a case is a directory tree (4-24 entries, depth<=4: files, directories, dot files, symlinks to files/directories, dangling symlinks; names with pattern and regexp metacharacters, blanks, newline, multi-byte, names that are prefixes of one another) built in a scratch directory, with 200 (thorough 300) patterns: 34 fixed shapes (*, .*, */, */*, //, ./, absolute, literal, \\-escapes ...) and patterns generalised from the tree's own paths (characters to ?, runs to *, bracket expressions, escapes, near misses, doubled/escaped/trailing slashes, absolute prefix). distinct_nontrivial = distinct (tree, pattern list) cases with >=2 non-empty results.",
+		Rule:         "(fixed shapes include absolute patterns whose FIRST component is a wildcard — the tree's path written /?mp/..., /[t]mp/..., /tmp*/... — and /*, /*/, /.* under the model-free clauses only) a case is a directory tree (4-24 entries, depth<=4: files, directories, dot files, symlinks to files/directories, dangling symlinks; names with pattern and regexp metacharacters, blanks, newline, multi-byte, names that are prefixes of one another) built in a scratch directory, with 200 (thorough 300) patterns: 34 fixed shapes (*, .*, */, */*, //, ./, absolute, literal, \\-escapes ...) and patterns generalised from the tree's own paths (characters to ?, runs to *, bracket expressions, escapes, near misses, doubled/escaped/trailing slashes, absolute prefix). distinct_nontrivial = distinct (tree, pattern list) cases with >=2 non-empty results.",
 		Assumptions:  []string{"refpat judges component matches", "patterns with a malformed component (unterminated [, trailing \\, invalid UTF-8) are not judged", "runs as root: unreadable directories cannot be produced"},
 		CaseWatchdog: 60e9,
 		Gen:          c16Gen,
